@@ -291,6 +291,9 @@ fn c20_cleanup_drops_only_expired_prefix() {
     kani::assume(t.requests.len() == t.requests.capacity()); // the only case in which cleanup acts
     t.cleanup();
     let removed = 3 - t.requests.len();
+    kani::cover!(removed == 3);
+    kani::cover!(removed == 1);
+    kani::cover!(removed == 0);
     // what is left is the suffix
     let j: usize = kani::any();
     kani::assume(j < t.requests.len());
@@ -304,9 +307,6 @@ fn c20_cleanup_drops_only_expired_prefix() {
     let s: usize = kani::any();
     kani::assume(s < 3 && ages[s] > 500);
     assert!(s < removed);
-    kani::cover!(removed == 3);
-    kani::cover!(removed == 1);
-    kani::cover!(removed == 0);
     core::mem::forget(t);
 }
 
